@@ -149,17 +149,17 @@ def gather_programs(ck, tier, rnd, want):
     return progs[: want * 2 // 3] + dprogs[: want // 3]
 
 
-def run(ck, tier, rnd, fixed):
+def run(ck, tier, rnd, fixed, scale=1.0, opk_free=None):
     r = tlc.mc("Layout", "Layout_MC.cfg", timeout=600)
     ck.add_tlc("Layout_MC", r)
     if not r.ok:
         ck.machinery("Layout_MC violated %s" % r.violated)
         return
-    want = 400 if tier == "quick" else 4000
+    want = int((400 if tier == "quick" else 4000) * scale)
     progs = gather_programs(ck, tier, rnd, want)
     lay_cache = {}
     jobs = []
-    opk = '{"blank", "comment", "split", "fixed"}' if fixed else OPK_FREE
+    opk = '{"blank", "comment", "split", "fixed"}' if fixed else (opk_free or OPK_FREE)
     for p in progs:
         n = len(p["prog"])
         if n not in lay_cache:
